@@ -9,6 +9,8 @@ dst = f"/verif/seeded/{pid}-{m}" if rnd == "1" else f"/verif/seeded/{pid}-r{rnd}
 os.makedirs(dst, exist_ok=True)
 for f in ("patch.diff", "demo_test.go", "README.md"):
     shutil.copy(os.path.join(src, f), os.path.join(dst, f))
+if os.path.exists(os.path.join(src, "NORACE")):
+    shutil.copy(os.path.join(src, "NORACE"), os.path.join(dst, "NORACE"))
 res = open(os.path.join(src, "result.txt")).read()
 conf = re.search(r"demo_on_unchanged_tree_exit=(\d+).*suite_with_change_exit=(\d+).*demo_with_change_exit=(\d+).*race_flag='([^']*)'", res)
 checks = []
